@@ -1,23 +1,68 @@
-import Spine.UseCase
+import Spine.UseCaseConc
+import Spine.UseCaseHeap
 open Spine.UC
-def showSup (s : Support) : String := s!"{s.name}/{s.version}/{if s.avail then 1 else 0}/{s.scen}"
+/-! Line protocol for the use-case registry model (C20). One op per line, one answer per line.
+
+    Sequential ops (`add`, `avail`, `rm`, `rmall`) take effect atomically; `copy k` / `store k <op>` are the two
+    events of the code as written (DataCopy … SetData); `read` is the reply to a peer's read.
+    Two members run in lockstep: the value-copy model the theorems are stated on (`Spine.UC.CSt`) and the
+    aliasing-exact heap member (`Spine.UCH.St`). An answer is `X` when both agree and `H ## V` (heap, value) when
+    they differ — which may only happen inside overlapping read-modify-write cycles. -/
+def showSup (s : Support) : String := s!"{s.name}/{s.version}/{if s.avail then 1 else 0}/{s.scen}/{s.sub}"
 def showInfo (i : Info) : String := s!"{i.ent}:{i.actor}:" ++ ",".intercalate (i.sup.map showSup)
 def showReg (r : Reg) : String := if r.isEmpty then "." else " | ".intercalate (r.map showInfo)
 def parseEnt (s : String) : List Nat := (s.splitOn ".").filterMap String.toNat?
-partial def loop (h : IO.FS.Stream) (out : IO.FS.Stream) (r : Reg) : IO Unit := do
+def nums (ws : List String) : Option (List Nat) := ws.mapM String.toNat?
+
+def parseOp : List String → Option Op
+  | ["add", e, a, n, v, av, sc, sub] => do
+    let [a, n, v, av, sub] ← nums [a, n, v, av, sub] | none
+    some (.add (parseEnt e) a ⟨n, v, av == 1, (sc.splitOn ",").filterMap String.toNat?, sub⟩)
+  | ["avail", e, a, n, av] => do
+    let [a, n, av] ← nums [a, n, av] | none
+    some (.setAvail (parseEnt e) a n (av == 1))
+  | ["rm", e, a, n] => do
+    let [a, n] ← nums [a, n] | none
+    some (.remove (parseEnt e) a n)
+  | ["rmall", e] => some (.removeAll (parseEnt e))
+  | _ => none
+
+structure Both where
+  v : CSt := {}
+  h : Spine.UCH.St := {}
+
+def both (hs vs : String) : String := if hs == vs then hs else hs ++ " ## " ++ vs
+def onReg (b : Both) (f : Reg → String) : String := both (f (Spine.UCH.reg b.h)) (f b.v.reg)
+
+def answer (b : Both) (ws : List String) : Both × String :=
+  match ws with
+  | ["reset"] => ({}, ".")
+  | ["read"] => (b, onReg b fun r => showReg (readReply r))
+  | ["has", e, a, n] => match nums [a, n] with
+    | some [a, n] => (b, onReg b fun r => if has r (parseEnt e) a n then "true" else "false")
+    | _ => (b, "bad-op")
+  | ["lookup", e, a, n] => match nums [a, n] with
+    | some [a, n] => (b, onReg b fun r => match lookup r (parseEnt e) a n with | some x => showSup x | none => "none")
+    | _ => (b, "bad-op")
+  | ["copy", k] => match k.toNat? with
+    | some k => ({ v := cstep b.v (.copy k), h := Spine.UCH.step b.h (.copy k) }, "ok")
+    | none => (b, "bad-op")
+  | "store" :: k :: rest => match k.toNat?, parseOp rest with
+    | some k, some o =>
+      let b' : Both := { v := cstep b.v (.store k o), h := Spine.UCH.step b.h (.store k o) }
+      (b', onReg b' showReg)
+    | _, _ => (b, "bad-op")
+  | _ => match parseOp ws with
+    | some o =>
+      let b' : Both := { v := cstep b.v (.atomic o), h := Spine.UCH.step b.h (.atomic o) }
+      (b', onReg b' showReg)
+    | none => (b, "bad-op")
+
+partial def loop (h : IO.FS.Stream) (out : IO.FS.Stream) (s : Both) : IO Unit := do
   let line ← h.getLine
   if line.isEmpty then out.flush; return ()
-  let (r', ans) : Reg × String := match line.trimAscii.toString.splitOn " " with
-    | ["add", e, a, n, v, av, sc] =>
-      let r' := add r (parseEnt e) a.toNat! ⟨n.toNat!, v.toNat!, av == "1", (sc.splitOn ",").filterMap String.toNat?⟩
-      (r', showReg r')
-    | ["has", e, a, n] => (r, if has r (parseEnt e) a.toNat! n.toNat! then "true" else "false")
-    | ["avail", e, a, n, av] => let r' := setAvail r (parseEnt e) a.toNat! n.toNat! (av == "1"); (r', showReg r')
-    | ["rm", e, a, n] => let r' := remove r (parseEnt e) a.toNat! n.toNat!; (r', showReg r')
-    | ["rmall", e] => let r' := removeAll r (parseEnt e); (r', showReg r')
-    | ["reset"] => ([], ".")
-    | _ => (r, "bad-op")
+  let (s', ans) := answer s ((line.trimAscii.toString.splitOn " ").filter (· ≠ ""))
   out.putStrLn ans
   out.flush
-  loop h out r'
-def main : IO Unit := do loop (← IO.getStdin) (← IO.getStdout) []
+  loop h out s'
+def main : IO Unit := do loop (← IO.getStdin) (← IO.getStdout) {}
